@@ -1,6 +1,6 @@
 CONSTANTS
   LoopBound = 3
-  StepFuel = 4000
+  StepFuel = 2000
 INIT Init
 NEXT Next
 CONSTRAINT HW
